@@ -98,6 +98,7 @@ type Sess struct {
 	trOps    []uint64
 	targets  map[ecs.Entity]bool // every non-zero target ever used
 	RecAll   [][]RecEvent
+	gfs      map[int]*gfState
 	Res      *ResModel
 	ResIDs   []ecs.ResID
 	ResKeys  []string
@@ -438,6 +439,10 @@ func (s *Sess) call(op *Op, out *Outcome) {
 		}
 	}()
 	w := s.W
+	if op.GK != "" {
+		s.callGeneric(op, out)
+		return
+	}
 	switch op.K {
 	case "NewEntity":
 		out.Ents = []ecs.Entity{w.NewEntity(s.ids(op.Add)...)}
